@@ -183,7 +183,7 @@ func init() {
 			sess := stdSession()
 			forEachStdCase(w, o, func(base *world.Case, family string) {
 				sess := sess
-				if family == "SCN" || family == "SSTORESEQ" {
+				if family == "SCN" || family == "SSTORESEQ" || family == "SDSEQ" {
 					sess = world.NewSession(base.Accounts)
 				}
 				variants := []*world.Case{base}
